@@ -61,6 +61,12 @@ pub fn show_hex(o: W, s: &[u8]) -> std::fmt::Result {
 
 /// value of a (possibly private) field as printed by the derived Debug impl
 pub fn dbg_field<T: core::fmt::Debug>(v: &T, name: &str) -> u64 {
+    crate::alloc_count::pause();
+    let r = dbg_field_inner(v, name);
+    crate::alloc_count::resume();
+    r
+}
+fn dbg_field_inner<T: core::fmt::Debug>(v: &T, name: &str) -> u64 {
     let s = format!("{:?}", v);
     let key = format!("{}: ", name);
     let i = s.find(&key).expect("debug field") + key.len();
